@@ -116,8 +116,9 @@ func init() {
 		in := func(t *Term) *Term { return And(Le(Zero, t), Lt(t, sv.Len)) }
 		st.assume(Forall([]*Term{ar}, Implies(Neq(ar, sv.Arr), Eq(Select(nh, ar), Select(h, ar)))))
 		st.assume(Forall([]*Term{k}, Implies(Or(Lt(k, sv.Off), Le(Add(sv.Off, sv.Len), k)), Eq(Select(Select(nh, sv.Arr), k), Select(Select(h, sv.Arr), k)))))
-		st.assume(Forall([]*Term{k}, Implies(in(k), And(in(pi(k)), Eq(Select(Select(nh, sv.Arr), Add(sv.Off, k)), Select(Select(h, sv.Arr), Add(sv.Off, pi(k)))), Eq(ip(pi(k)), k)))))
-		st.assume(Forall([]*Term{k}, Implies(in(k), And(in(ip(k)), Eq(pi(ip(k)), k)))))
+		st.assume(ForallPat([]*Term{k}, Implies(in(k), And(in(pi(k)), Eq(Select(Select(nh, sv.Arr), Add(sv.Off, k)), Select(Select(h, sv.Arr), Add(sv.Off, pi(k)))), Eq(ip(pi(k)), k))),
+			[]*Term{Select(Select(nh, sv.Arr), Add(sv.Off, k))}, []*Term{pi(k)}))
+		st.assume(ForallPat([]*Term{k}, Implies(in(k), And(in(ip(k)), Eq(pi(ip(k)), k))), []*Term{ip(k)}))
 		st.heapSet(cls, nh)
 		// sortedness over the permuted slice
 		qi, qj := Fresh("q_si", SInt), Fresh("q_sj", SInt)
